@@ -165,6 +165,17 @@ func semStmt(s N, ind string) string {
 		return r + ind + ")\n"
 	case "param":
 		return ind + "param (" + names(s["ns"]) + ")\n"
+	case "paramv":
+		ns := seqOf(s["ns"])
+		var ps []string
+		for i, n := range ns {
+			if i == len(ns)-1 {
+				ps = append(ps, "..."+n.(string))
+			} else {
+				ps = append(ps, n.(string))
+			}
+		}
+		return ind + "param (" + strings.Join(ps, ", ") + ")\n"
 	case "global":
 		return ind + "global (" + names(s["ns"]) + ")\n"
 	case "asg":
@@ -231,7 +242,7 @@ func semSource(body []any, withLog bool) string {
 	var sb strings.Builder
 	for i < len(body) {
 		k := body[i].(N)["k"]
-		if k != "param" && k != "global" {
+		if k != "param" && k != "paramv" && k != "global" {
 			break
 		}
 		sb.WriteString(semStmt(body[i].(N), ""))
